@@ -95,6 +95,9 @@ def items(tier, seed):
     for name, st in ms.seeds(seed, kinds=KINDS).items():
         for h in depth1(st, tier):
             its.append((name, h[0], h[1]))
+    # the marking helper that produces the marked set in the documented adaptive loop
+    for n in (1, 2, 3, 4):
+        its.append(('__adaptive_theta__', str(n), ''))
     return its
 
 
@@ -122,10 +125,62 @@ class _CallTimeout(Exception):
     pass
 
 
+def work_theta(item, tier, seed, out):
+    """m.refined(adaptive_theta(est, theta, max)) for ALL indicator vectors est in {0,1,2,3}^n, theta in {0, 1/2, 1},
+    max in {None, 0, 0.0, 1, 3, 5}: the marked set is {i : theta*max < est_i} (max defaults to max(est)), and exactly
+    these cells must end up subdivided."""
+    import itertools
+    from skfem.utils import adaptive_theta
+    from skfem import MeshLine
+    n = int(item[1])
+    m0 = MeshLine(np.array([0.0] + [0.5 * (k + 1) + (0.25 if k % 2 else 0) for k in range(n)]))
+    kind = 'line'
+    for est_t in itertools.product((0, 1, 2, 3), repeat=n):
+        for dt in (float, np.int64):
+            est = np.array(est_t, dtype=dt)
+            for theta in (0.0, 0.5, 1.0):
+                for mx in (None, 0, 0.0, 1, 3, 5):
+                    out.ev()
+                    M = max(est_t) if mx is None else mx
+                    want = [i for i in range(n) if theta * M < est_t[i]]
+                    case = {'est': list(est_t), 'dtype': str(np.dtype(dt)), 'theta': theta, 'max': mx}
+                    sig0 = "C13|adaptive_theta|"
+                    try:
+                        kw = {} if mx is None else {'max': mx}
+                        got = adaptive_theta(est, theta=theta, **kw)
+                    except Exception as e:
+                        out.violation(sig0 + 'exception', f"{e!r} for {case}", case=case)
+                        continue
+                    if not np.array_equal(est, np.array(est_t, dtype=dt)):
+                        out.violation(sig0 + 'argument-mutated', f"est changed for {case}", case=case)
+                    if sorted(np.asarray(got).tolist()) != want or not np.issubdtype(np.asarray(got).dtype, np.integer):
+                        out.violation(sig0 + 'marked-set', f"adaptive_theta({list(est_t)}, theta={theta}, max={mx}) = "
+                                      f"{np.asarray(got).tolist()}, expected {{i: theta*max < est_i}} = {want}", case=case)
+                        continue
+                    if mx is not None and M != max(est_t):
+                        out.nt(('theta', est_t, theta, mx))
+                    out.outcome(('theta', n, len(want)))
+                    if dt is float and theta == 0.5:
+                        def bad(what, msg):
+                            out.violation(sig0 + 'refined|' + what, f"{msg} [{case}]", case=case)
+                        try:
+                            with mo.LogCapture() as lc:
+                                m1 = m0.refined(got)
+                        except Exception as e:
+                            bad('exception', repr(e))
+                            continue
+                        out.transitions += 1
+                        mo.check_refinement('C13', kind, m0, m1, lc.records, bad, out, marked=tuple(want), check_boundaries=False)
+    out.traces = out.transitions
+    return out
+
+
 def work(item, tier, seed):
     name, how, lab = item
     out = Out()
     out.set_item(item)
+    if name == '__adaptive_theta__':
+        return work_theta(item, tier, seed, out)
     bd = BOUNDS[tier]
     st1 = state_of(name, how, lab, seed)
     if st1 is None:
